@@ -493,11 +493,11 @@ func runAside(c *Ctx) {
 				}
 				ep.op(c, fmt.Sprintf("get %d", ci))
 			case x < 7:
-				if loading == 1 {
+				if loading == 1 && parked == 0 {
 					ep.op(c, "load-ok "+hx(vals[r.IntN(len(vals))]))
-				} else if loading > 1 {
-					// several loaders (after a Del/expiry/death): a value with the placeholder prefix would send its
-					// loader back into a race whose winner the scheduler picks
+				} else if loading > 0 {
+					// several loaders or waiters of another client: a value with the placeholder prefix would send its
+					// loader back into a race for the lock whose winner the scheduler picks
 					ep.op(c, "load-ok "+hx(vals[r.IntN(4)]))
 				}
 			case x == 7:
